@@ -19,11 +19,11 @@ NA = [
 E1 = "E1 simrt: generated C + w2c2_base.h + futex/*.c under the simcore baton scheduler (simulated pthread objects/clock/allocator faults), clang ASan+UBSan, preemption at every instrumented load/store/atomic"
 CHECKS = {
  "C05": dict(engine="simrt", cat="exploration", tech="deterministic simulation: seeded operation histories with injected allocation failures, checked op-by-op against a byte-array reference model",
-   text="Seeded histories (20-120 ops) of every load/store flavour, size, grow (incl. limits and wrap-around deltas, injected realloc failure), copy/fill/init on the real generated code; after every operation results, page count and the whole memory are compared with a byte-array model. Exploration of the history/fault half of the property over one generated module family, not translation validation of arbitrary programs.",
-   note="only in-bounds accesses are generated; model is little-endian byte array; one generated module (mem: 1..8 pages, passive segments)", ref="5/C05"),
- "C16": dict(engine="simrt", cat="exploration", tech="deterministic simulation: seeded schedules (random walk + PCT) over parked real threads, linearizability check of atomic-op histories per 8-byte word",
+   text="Seeded histories (20-120 ops) of every load/store flavour, 18 composite functions (store; store of another type or width; load at one address), size, grow (incl. limits and wrap-around deltas, injected realloc failure), copy/fill/init on the real generated code; after every operation results, page count and the whole memory are compared with a byte-array model. Exploration of the history/fault half of the property over one generated module family, not translation validation of arbitrary programs.",
+   note="only in-bounds accesses are generated; model is little-endian byte array; one generated module (mem: 1..8 pages, passive segments) built four ways: instrumented clang -O1 with array and gnu-ld data embedding, plain gcc -O2, plain clang -O3", ref="5/C05"),
+ "C16": dict(engine="simrt", cat="exploration", tech="deterministic simulation: seeded schedules (random walk + PCT) over parked real threads, linearizability / sequential-consistency check of atomic-op histories per 8-byte word and jointly over all touched words; x86-TSO store-buffer model for accesses weaker than seq_cst",
    text="2-4 simulated threads of one shared-memory instance family execute seeded mixes of all 63 atomic opcodes (two static offsets, mixed widths on hot words, operands with bits above the access width); every history is checked for linearizability against a byte-array register specification including the final memory. Runs on the native little-endian build (builtins, indivisible steps) and on the forced big-endian build whose RMWs are mutex-based sequences that really interleave.",
-   note="sequentially consistent interleavings only; histories <= 28 ops; search budget 1e6 states (over-budget = unchecked, never a violation)", ref="5/C16"),
+   note="interleavings of indivisible atomic steps plus delayed stores (TSO store buffer) for any access whose memory order is weaker than seq_cst; load reordering / non-multi-copy-atomic hardware not modelled; histories <= 28 ops; search budget 1e6 states (over-budget = unchecked, never a violation)", ref="5/C16"),
  "C17": dict(engine="simrt", cat="exploration", tech="deterministic simulation: seeded schedules, spurious wake-ups, simulated clock/timeouts; refinement of wait/notify histories against a sequential futex specification (R1-R8) plus bounded liveness after a fault-free drain",
    text="2-5 simulated threads run seeded wait32/wait64/notify/value-change operations (static offset 0 and non-zero, colliding hash buckets, timeouts -1/0/us/ms/s) under every lock/cond/load/store interleaving the scheduler draws, with spurious wake-ups and timer-vs-notify races; black-box rules on invoke/return events decide return codes, counts, no-lost-wake-up (incl. atomic check-and-enqueue), cross-address isolation and termination; ASan guards lifetimes.",
    note="POSIX cond semantics as simulated (any waiter may be signalled, spurious wake-ups legal); realtime clock does not jump during waits", ref="5/C17"),
@@ -31,12 +31,12 @@ CHECKS = {
    text="2-4 simulated threads grow/query/touch one shared memory; each history must be linearizable w.r.t. a bounded page counter (distinct old sizes, failed grows change nothing, final size = initial + successful deltas <= max), touched bytes of observed pages must hold, and a FastTrack-style happens-before detector fed by the instrumentation callbacks must see no unordered conflicting accesses to data/size/pages/maxPages.",
    note="sequentially consistent interleavings; race detector only sees instrumented code (generated C, w2c2_base.h inlines, futex)", ref="5/C18"),
  "C19": dict(engine="simrt", cat="exploration", tech="deterministic simulation on the forced big-endian build: seeded load/store/bulk/atomic histories against the byte-reversed reference model, atomic histories also under seeded schedules",
-   text="The E1 workloads of C05 and C16 run on a build with WASM_ENDIAN forced to big-endian; the model stores every 16/32/64-bit access byte-reversed and 8-bit/bulk accesses unreversed, so a wrong-width, doubled or missing swap changes bytes or results. Runtime half of the property only.",
+   text="The E1 workloads of C05, C16 and C17 (wait/notify, judged by the futex rules) run on a build with WASM_ENDIAN forced to big-endian; the model stores every 16/32/64-bit access byte-reversed and 8-bit/bulk accesses unreversed, so a wrong-width, doubled or missing swap changes bytes or results. Runtime half of the property only.",
    note="a little-endian host with WASM_ENDIAN forced to big; the 'translator itself on a big-endian host' clause (buffer.h) is not reachable in this sandbox and is not claimed", ref="5/C19"),
 }
 
 CHECKS["C06"] = dict(engine="siminst", cat="exploration", tech="deterministic simulation: seeded interleavings (at operation boundaries) of instantiations and calls on 1-4 live instances of seeded module variants, per-instance / per-object reference model compared after every operation",
-   text="Eight (thorough: 32) seeded variants of a generated module family - defined, imported or shared memory; defined or imported table; imported globals used as segment offsets and initialisers; overlapping, zero-length, last-byte and all-zero active data segments; a passive segment; element segments; optional start function with a host call - are translated by the current translator. Client tasks instantiate them on own or shared resolver objects and call exported getters/setters, loads/stores, grow, memory.init and call_indirect; the scheduler interleaves the clients. After every operation all live instances, memory objects and tables are compared with the model: initial state (sizes, segment order, globals, table slots), start function exactly once and after the segments, persistence, isolation of defined state, binding of imports, reachability of '<module>_<name>' exports.",
+   text="Eight (thorough: 32) seeded variants of a generated module family - defined, imported or shared memory; defined or imported table; imported globals used as segment offsets and initialisers; overlapping, zero-length, last-byte and all-zero active data segments; a passive segment; element segments; optional start function with a host call - are translated by the current translator. Client tasks instantiate them (into zeroed or garbage-filled structs, as children of live instances, or again into the same struct after FreeInstance against other resolver objects) on own or shared resolver objects and call exported getters/setters, loads/stores, grow, memory.init and call_indirect; the scheduler interleaves the clients. After every operation all live instances, memory objects and tables are compared with the model: initial state (sizes, segment order, globals, table slots), start function exactly once and after the segments, persistence, isolation of defined state, binding of imports, reachability of '<module>_<name>' exports.",
    note="operations are atomic in the model (interleaving at operation boundaries); child instances only for variants without shared memory; a generated family, not arbitrary programs", ref="5/C06")
 E2 = "E2 simxl: every w2c2/*.c of the working tree (main renamed w2c2_main) run in a forked child per simulated run on a tmpfs scratch tree; pthread pool under the simcore baton scheduler (preemption at sync ops, I/O calls, instrumented loads/stores), simulated CPU count/exit, fopen/fclose faults, record-and-refuse monitor on mutating libc calls; clang ASan + memory-related UBSan checks"
 CHECKS.update({
